@@ -59,7 +59,7 @@ static void prop(Tape &t, Ctx &c) {
     auto give_to_peer = [&]() { V.pump_out();
         if (dt) { while (!V.dgram_out.empty()) { Bytes x = V.dgram_out.front(); V.dgram_out.pop_front(); if (P.ssl && !P.failed) P.feed_dgram(x); } }
         else if (!V.wire_out.empty()) { Bytes x = V.take_wire(); if (P.ssl && !P.failed) P.feed(x); } };
-    auto deliver = [&](const Bytes &u) { if (!V.ssl) return; int rc = dt ? V.feed_dgram(u) : V.feed(u, chunk, true); check_rc(rc, "matrixSslReceivedData/ProcessedData", desc); check_bufs(V, desc); if (V.ssl) maxstate = std::max(maxstate, vfh_hs_state(V.ssl)); give_to_peer(); check_bufs(V, desc); };
+    auto deliver = [&](const Bytes &u) { if (!V.ssl) return; if (c.verbose) fprintf(stderr, "  deliver %zu bytes: %s (inlen before=%d)\n", u.size(), hex(u.data(), u.size(), 40).c_str(), vfh_inlen(V.ssl)); int rc = dt ? V.feed_dgram(u) : V.feed(u, chunk, true); if (c.verbose && V.ssl) fprintf(stderr, "    -> rc=%d inlen=%d outlen=%d state=%d\n", rc, vfh_inlen(V.ssl), vfh_outlen(V.ssl), vfh_hs_state(V.ssl)); check_rc(rc, "matrixSslReceivedData/ProcessedData", desc); check_bufs(V, desc); if (V.ssl) maxstate = std::max(maxstate, vfh_hs_state(V.ssl)); give_to_peer(); check_bufs(V, desc); };
     int mi = 0;
     for (int guard = 0; guard < 64 && !t.exhausted(); guard++) {
         give_to_peer(); take_from_peer();
